@@ -1,6 +1,7 @@
 // Scenarios "hostile_srv" (C05) and "hostile_cli" (C06/C13): real programs under
 // ASan/UBSan receive generated hostile datagrams inside live sessions.
 #include "scen.h"
+#include <memory>
 #include "gen.h"
 #include "hostgen.h"
 #include <algorithm>
@@ -172,6 +173,9 @@ J gen_hostile_cli(uint64_t seed, const J &ov)
 	h.set("p", focus == "login" ? 1.0 : 0.02 + r.uniform() * 0.3);
 	h.set("keep_orig", r.chance(0.5));     // also deliver the genuine answer afterwards (racing spoofer) or suppress it (on-path)
 	h.set("key", (long long)(r.next() >> 1));
+	// fragment flood: from some tunnel answer on, every answer becomes the next fragment (same seqno, ascending numbers, no last
+	// flag) of one never-ending downstream packet, as large as the answer format allows
+	if ((focus == "any" || focus == "tunnel") && r.chance(0.25)) { h.set("flood_from", (int)r.range(0, 60)); h.set("flood_len", (int)r.range(3, 40)); h.set("flood_size", (int)(r.chance(0.5) ? r.range(15000, 30000) : r.range(2000, 15000))); h.set("flood_seq", (int)r.range(0, 7)); }
 	cfg.set("hostile", h);
 	// off-path spoofers: forged answers from the server's address to the client's port
 	int nsp = (int)(r.chance(0.5) ? 0 : r.range(5, 80));
@@ -265,9 +269,25 @@ World *build_hostile_cli(const J &plan)
 	uint64_t key = (uint64_t)h.geti("key");
 	World *ww = w;
 	int srvh = w->srv_host;
+	int flood_from = h.has("flood_from") ? (int)h.geti("flood_from") : -1, flood_len = (int)h.geti("flood_len"), flood_size = (int)h.geti("flood_size"), flood_seq = (int)h.geti("flood_seq");
+	auto flood_n = std::make_shared<int>(0);
+	auto tun_answers = std::make_shared<int>(0);
 	if (!plan.getb("explicit_fates", false)) {
-		w->S.gen_mutator = [ww, focus, p, keep, key, srvh](const Dgram &d, Fate &f) {
+		w->S.gen_mutator = [ww, focus, p, keep, key, srvh, flood_from, flood_len, flood_size, flood_seq, flood_n, tun_answers](const Dgram &d, Fate &f) {
 			if (d.src_host != srvh || d.data.size() < 12) return;
+			if (flood_from >= 0 && !(d.data[0] == 0x10 && d.data[1] == 0xd1) && d.data.size() > 13) {
+				char c0 = (char)tolower(d.data[13]);
+				bool tunq = c0 == 'p' || (c0 >= '0' && c0 <= '9') || (c0 >= 'a' && c0 <= 'f');
+				if (tunq && ww->all_in_tunnel) {
+					int k = (*tun_answers)++;
+					if (k >= flood_from && *flood_n < flood_len) {
+						f.synth_size = flood_size; f.synth_seq = flood_seq; f.synth_frag = (*flood_n) & 15; f.synth_last = 0; f.synth_key = key ^ (uint64_t)k; f.synth_enc = "TSUV"[k % 4];
+						(*flood_n)++;
+						ww->probes["c06.flood_fragments"]++;
+						return;
+					}
+				}
+			}
 			if (d.data[0] == 0x10 && d.data[1] == 0xd1) {
 				// raw frame towards the client: occasionally mangle
 				Rng rr(key ^ d.ordinal, "rawmut");
